@@ -11,9 +11,6 @@ import (
 
 func (e *Engine) candidate(x *Sym) (int64, bool) {
 	// Ask the solver for a value of x under the current path condition.
-	if r := e.S.CheckSat(); r != "sat" {
-		return 0, false
-	}
 	n := "cz!" + strconv.Itoa(e.defs)
 	e.defs++
 	e.S.Send(fmt.Sprintf("(define-fun %s () %s %s)", n, sortOf(x.K), x.E))
@@ -116,7 +113,21 @@ func boundedIndex(idx value, n int64, msg string) int64 {
 	if !eng.truth(inr) {
 		panic(fmt.Sprintf("runtime error: %s [symbolic] with length %d", msg, n))
 	}
-	return eng.concretize(s)
+	return eng.concretizeRange(s, 0, n-1)
+}
+
+// concretizeRange enumerates lo..hi in order (x is known to lie in that range).
+func (e *Engine) concretizeRange(x *Sym, lo, hi int64) int64 {
+	if hi-lo > 512 {
+		return e.concretize(x)
+	}
+	for v := lo; v < hi; v++ {
+		e.pendingVal = v
+		if e.Branch(symBool("(= " + x.E + " " + lit(symOfValue(x.K, v)) + ")")) {
+			return v
+		}
+	}
+	return hi
 }
 
 // boundedSize concretises a make() size; negative sizes panic, sizes above 64 end the path.
